@@ -60,22 +60,23 @@ func VH_C27_replChunk() {
 	vhAssume(line0 >= 0 && line0 < 1<<40)
 	g.Line = line0
 	vhChunkPrefix = vhStrRange("comment prefix", 6, '\n', '/')
-	vhChunkRest = vhStrRange("code", 6, '\n', 'z')
+	vhChunkRest = vhStrRange("code", 4, '\n', 'z')
 	vhChunkEOF = false
 	vhAssume(len(vhChunkRest) > 0 && vhChunkRest[0] > ' ') // the chunk has code, and it starts at the first token
 	again := ir.ReadParseEvalPrint()
 	vhAssert(again, "the REPL continues")
 	vhAssert(vhParses == 1, "the chunk is parsed once")
 	if vhParses == 1 {
-		// position the parser reports for the first token = start line + newlines before it in the parsed text
-		var reported int
-		if vhParsedSrc == vhChunkPrefix+vhChunkRest {
-			reported = vhParsedAtLine + vhNL(vhChunkPrefix)
-		} else {
-			vhAssert(vhParsedSrc == vhChunkRest, "the parser receives the chunk, with or without its comment prefix")
-			reported = vhParsedAtLine
+		// the parser must be given the chunk from the start of some line at or before the first token,
+		// together with the true line number of that line: then lines *and columns* of all tokens are true
+		full := vhChunkPrefix + vhChunkRest
+		cut := len(full) - len(vhParsedSrc)
+		vhAssert(cut >= 0 && cut <= len(vhChunkPrefix), "the parser receives the chunk from a point at or before the first token")
+		if cut >= 0 && cut <= len(vhChunkPrefix) {
+			vhAssert(full[cut:] == vhParsedSrc, "the parser receives a suffix of the chunk")
+			vhAssert(cut == 0 || full[cut-1] == '\n', "the parsed text starts at the beginning of a line, so columns are preserved")
+			vhAssert(vhParsedAtLine == line0+vhNL(full[:cut]), "the first token is reported at its true line")
 		}
-		vhAssert(reported == line0+vhNL(vhChunkPrefix), "the first token is reported at its true line")
 	}
 	vhAssert(g.Line == line0+vhNL(vhChunkPrefix)+vhNL(vhChunkRest), "afterwards the counter has advanced by the newlines of the chunk")
 	vhReach("end")
@@ -115,23 +116,23 @@ func VH_C27_replTwoChunks() {
 	ir := vhReplWorld()
 	g := &ir.Comp.Globals
 	g.Line = 0
-	p1 := vhStrRange("prefix1", 3, '\n', '/')
-	r1 := vhStrRange("code1", 3, '\n', 'z')
+	p1 := vhStrRange("prefix1", 2, '\n', '/')
+	r1 := vhStrRange("code1", 2, '\n', 'z')
 	p2 := vhStrRange("prefix2", 3, '\n', '/')
-	r2 := vhStrRange("code2", 3, '\n', 'z')
+	r2 := vhStrRange("code2", 2, '\n', 'z')
 	vhAssume(len(r1) > 0 && r1[0] > ' ' && len(r2) > 0 && r2[0] > ' ')
 	vhChunkEOF = false
 	vhChunkPrefix, vhChunkRest = p1, r1
 	ir.ReadParseEvalPrint()
 	vhChunkPrefix, vhChunkRest = p2, r2
 	ir.ReadParseEvalPrint()
-	var reported int
-	if vhParsedSrc == p2+r2 {
-		reported = vhParsedAtLine + vhNL(p2)
-	} else {
-		reported = vhParsedAtLine
+	full := p2 + r2
+	cut := len(full) - len(vhParsedSrc)
+	vhAssert(cut >= 0 && cut <= len(p2), "the parser receives the second chunk from a point at or before its first token")
+	if cut >= 0 && cut <= len(p2) {
+		vhAssert(full[cut:] == vhParsedSrc && (cut == 0 || full[cut-1] == '\n'), "the parsed text is a suffix of the chunk starting at the beginning of a line")
+		vhAssert(vhParsedAtLine == vhNL(p1)+vhNL(r1)+vhNL(full[:cut]), "the first token of the second chunk is reported at its true line")
 	}
-	vhAssert(reported == vhNL(p1)+vhNL(r1)+vhNL(p2), "the first token of the second chunk is reported at its true line")
 	vhReach("end")
 }
 
